@@ -524,7 +524,9 @@ pub fn instance_p(sc: &Value, p: Parameters, shared: Option<&Shared>, r: &mut St
     let mut reach = match pose_class { "stretched" | "on-j1-axis" | "barely-out" => "edge", _ => "yes" };
     match pose_class {
         "unreachable" => {
-            let far = 3.0 * (p.a1.abs() + p.a2.abs() + p.b.abs() + p.c1.abs() + p.c2 + p.c3 + p.c4) + 2.0;
+            // (three times the sum of all lengths, whatever their signs and their unit, and then some)
+            let all = p.a1.abs() + p.a2.abs() + p.b.abs() + p.c1.abs() + p.c2.abs() + p.c3.abs() + p.c4.abs();
+            let far = 3.0 * all + 2.0 * all.max(1.0);
             // shift the LEAF pose far away: express through the stack by moving the flange
             let mut leaf = oracle::fk(&p, &leaf_q);
             let dir = [r.gen_range(-1.0..1.0), r.gen_range(-1.0..1.0), r.gen_range(0.2..1.0f64)];
